@@ -362,6 +362,18 @@ func indexInBounds(env *intervalEnv, x, idx ssa.Value, facts ssau.FactSet) strin
 			}
 		}
 	}
+	// x = make([]T, n) indexed by a value with a dominating comparison idx < n (same expression, e.g. len(y))
+	if ms, isMake := x.(*ssa.MakeSlice); isMake && ok && ir.lo.Sign() >= 0 {
+		lp := stripConv(ssau.Path(ms.Len))
+		ip := stripConv(ssau.Path(idx))
+		if lp != "" && !ssau.IsUnique(lp) {
+			for f := range facts {
+				if (f.Kind == "lt" && stripConv(f.Path) == ip && stripConv(f.Arg) == lp) || (f.Kind == "gt" && stripConv(f.Path) == lp && stripConv(f.Arg) == ip) {
+					return "the slice was made with length " + cleanPath(lp) + " and a dominating comparison keeps the index below that same expression"
+				}
+			}
+		}
+	}
 	// idx = base + k1 with a dominating  base + k2 <= len(x)  (k2 > k1)  or  base + k2 < len(x)  (k2 >= k1)
 	{
 		base, k1 := idx, int64(0)
